@@ -119,8 +119,9 @@ def replay_streams(rp):
 # ------------------------------------------------------------------------------------------ derived CborLen (C07)
 
 C07_DERIVED_MODULES = ["Minicbor.Thm.C07Derive"]
-C07_DERIVED_REQUIRED = ["Minicbor.C07Derive." + n for n in """len_exact_derived_partial len_derived_counterexample_K2 len_derived_counterexample_K3
-len_derived_counterexample_K7 lenArray_exact lenMap_exact noLenGap_example""".split()]
+C07_DERIVED_REQUIRED = ["Minicbor.C07Derive." + n for n in """len_exact fields_len vars_len len_exact_derived_partial lenFrame_exact
+lenArray_exact lenMap_exact len_derived_counterexample_K3 len_exact_derived_statement_false len_derived_K2_repaired
+len_derived_KD1_repaired noLenGap_example""".split()]
 
 
 def bodies(ty, v):
@@ -152,22 +153,17 @@ def idxlen_i32(i):
 
 
 def len_classes(ty, v):
-    """which recorded CborLen defects this value can trigger."""
+    """which recorded CborLen defects this value can trigger (K2 and KD1 were repaired in /repo: d85a3d2, 36d21e9)."""
     cls = set()
     for b in bodies(ty, v):
         if b[0] == "variant":
-            if idxlen_i32(b[2].idx) != u32len(b[2].idx): cls.add("K7")
             continue
         _, enc, fields, vals = b
         live = [(f, x) for f, x in zip(fields, vals) if not f.skip]
         present = [(f, x) for f, x in live if not dg.absent(f, x)]
-        if enc == "m":
-            if u64len(len(live)) != u64len(len(present)): cls.add("K2")
-            if any(idxlen_i32(f.idx) != u32len(f.idx) for f, _ in present): cls.add("K7")
-        else:
-            if present:
-                m = max(f.idx for f, _ in present)
-                if any(f.tag is not None and dg.absent(f, x) and f.idx < m for f, x in live): cls.add("K3")
+        if enc == "a" and present:
+            m = max(f.idx for f, _ in present)
+            if any(f.tag is not None and dg.absent(f, x) and f.idx < m for f, x in live): cls.add("K3")
     return cls
 
 
@@ -187,7 +183,7 @@ def make_len_judge(rows):
             return "violation"
         ty, v = meta.get(op, (None, None))
         cls = len_classes(ty, v) if ty is not None else set()
-        for k in ("K3", "K2", "K7"):
+        for k in ("K3",):
             if k in cls:
                 return ("known", k)
         return "violation"
